@@ -4221,10 +4221,16 @@ class NameCheckVisitor(node_visitor.ReplacingNodeVisitor):
             return self.visit(node)
 
     def visit_Break(self, node: ast.Break) -> None:
-        self._set_name_in_scope(LEAVES_LOOP, node, AnyValue(AnySource.marker))
+        self._leave_loop(node)
 
     def visit_Continue(self, node: ast.Continue) -> None:
+        self._leave_loop(node)
+
+    def _leave_loop(self, node: ast.AST) -> None:
         self._set_name_in_scope(LEAVES_LOOP, node, AnyValue(AnySource.marker))
+        scope = self.scopes.current_scope()
+        if isinstance(scope, FunctionScope):
+            scope.snapshot_loop_exit()
 
     def visit_For(self, node: Union[ast.For, ast.AsyncFor]) -> None:
         iterated_value = self._member_value_of_iterator(
